@@ -71,6 +71,37 @@ theorem sol_step_length (w : World) (Us : List (List Con)) (hw : TInvS R RE E Us
   rw [← hl]
   cases op <;> rfl
 
+/-- `add` never raises (no layer of the class consults the backend while adding) -/
+theorem sol_step_add_out (w : World) (Us : List (List Con)) (hw : TInvS R RE E Us w) (i : Nat) (hi : i < w.fes.length)
+    (cs : List Con) (hop : InScopeS R RE (.add cs)) : ∃ ids, (step E .Solver w i (.add cs)).1 = .cons ids := by
+  have h0 := hw.each i hi
+  show ∃ ids, (outOf (fun added => Out.cons (added.map (·.id))) (runOn w i (publicAdd (classOps E .Solver) cs))).1 = .cons ids
+  rw [classOps_solver, runOn_eq]
+  by_cases hemp : cs.isEmpty = true
+  · have hnil : cs = [] := by simpa using hemp
+    subst hnil
+    exact ⟨[], rfl⟩
+  · have : publicAdd (solStage E 4) cs true (stOfI w i) = (solStage E 4).add cs true (stOfI w i) := by
+      simp [publicAdd, hemp]
+    rw [this]
+    obtain ⟨added, s', hrun, _⟩ := (solStage_ok3 H 3).add (Us.getD i []) (stOfI w i) cs true h0.mark hop
+      (fun hf => by cases hf)
+    rw [hrun]
+    exact ⟨_, rfl⟩
+
+/-- a call that ends in an error leaves every user's constraint list as it was: only `add` and `branch` change them, and
+they never raise -/
+theorem sol_error_users (w : World) (Us : List (List Con)) (hw : TInvS R RE E Us w) (i : Nat) (hi : i < w.fes.length)
+    (op : Op) (hop : InScopeS R RE op) (err : Err) (he : (step E .Solver w i op).1 = .err err) :
+    usersAll Us i op = Us ∧ nAfter w.fes.length op = w.fes.length := by
+  cases op
+  case add cs =>
+    obtain ⟨ids, hids⟩ := sol_step_add_out H w Us hw i hi cs hop
+    rw [hids] at he; cases he
+  case branch =>
+    rw [(sol_step_branch (E := E) w Us hw i hi).1] at he; cases he
+  all_goals exact ⟨rfl, rfl⟩
+
 /-- every world a history in scope reaches satisfies the invariant, for the constraint lists the users have by then -/
 theorem sol_reach (hist : List (Nat × Op)) : ∀ (w : World) (Us : List (List Con)), TInvS R RE E Us w →
     HistOkS R RE w.fes.length hist →
